@@ -1398,9 +1398,22 @@ func (s *BgpServer) processRTCMembership(peer *peer, path *table.Path) {
 	s.rtcVPNCandidates(peer, path.IsWithdraw, rt, fs, func(paths []*table.Path, filtered []*table.Path) {
 		if path.IsWithdraw {
 			// Skips filtering: paths are already scoped to this RT and withdrawals
-			// do not need path attributes.
-			peer.updateRoutes(filtered...)
-			sendfsmOutgoingMsg(peer, filtered)
+			// do not need path attributes. A path that also carries a target the
+			// peer is still a member of stays advertised. When the default
+			// membership goes, the candidates are the paths the filter no longer
+			// lets through, not yet withdrawals.
+			withdrawals := make([]*table.Path, 0, len(filtered))
+			for _, p := range filtered {
+				if p == nil || peer.interestedIn(p) {
+					continue
+				}
+				if !p.IsWithdraw {
+					p = p.Clone(true)
+				}
+				withdrawals = append(withdrawals, p)
+			}
+			peer.updateRoutes(withdrawals...)
+			sendfsmOutgoingMsg(peer, withdrawals)
 			return
 		}
 		if peer.getRtcEORWait() {
